@@ -21,7 +21,8 @@ ID = "C07"
 TITLE = "no call modifies caller data; results depend only on argument values"
 RULE = ("(1) per metric: ALL histories of length <= 3 over {evaluate on an ordered pair of pool "
         "vectors (aliased pairs x is y included), the caller overwrites one of its own vectors in "
-        "place with another pool value} for a pool of domain vectors containing exact zeros - after "
+        "place with another pool value, an evaluation on float32 copies} for a pool of domain vectors containing "
+        "exact zeros, -0.0, 3.3e-22 and 5e-324 - after "
         "every call the pool must be bit-identical to what the caller wrote and the value equal to "
         "that of the same call on fresh arrays holding the same values; (2) per model kind x metric: breadth-first search over histories of "
         "{fit, predict(queries), predict(training matrix), get_distances, pre_compute_distance, "
@@ -30,7 +31,8 @@ RULE = ("(1) per metric: ALL histories of length <= 3 over {evaluate on an order
         "mutable objects of opfython.* and the NumPy RNG are restored first) with state = (pool bits, hidden-state digest, "
         "model digest) to fixpoint (depth bound 4): pool unchanged and each return value equal "
         "to its pristine reference on every transition; (3) two fresh models fitted on equal "
-        "data, with arbitrary calls in between, have identical forests and predictions. "
+        "data, with arbitrary calls in between (also: numpy.empty/empty_like serving 1e300 for the second fit - "
+        "uninitialised memory is an environment answer), have identical forests and predictions. "
         "Non-trivial = the history has >= 2 calls (an earlier call could have influenced it)")
 ASSUMPTIONS = [
     "arrays are C-contiguous float64 (and int64 label/index arrays); read-only and strided "
